@@ -531,6 +531,23 @@ func gateWrappers(gate *ssa.Function, region map[*ssa.Function]bool) []*ssa.Func
 					good = true
 				}
 				if !good {
+					// an error that has just been found set is handed back
+					for _, f := range factsAt(b) {
+						c, truth := normFact(f)
+						if bo, ok := c.(*ssa.BinOp); ok && (bo.Op == token.NEQ || bo.Op == token.EQL) {
+							var other ssa.Value
+							if isNilConst(bo.Y) {
+								other = bo.X
+							} else if isNilConst(bo.X) {
+								other = bo.Y
+							}
+							if other != nil && other == ev && (bo.Op == token.NEQ) == truth {
+								good = true
+							}
+						}
+					}
+				}
+				if !good {
 					for _, gt := range out {
 						for _, b2 := range g.Blocks {
 							for _, i2 := range b2.Instrs {
